@@ -325,7 +325,7 @@ class _FuncPass:
             if isinstance(p.func, ast.Attribute) and tail in ABSORBING_METHODS:
                 self.oa.absorbed.append(f"{self.fi.fq}: .{tail}({short(node, 50)})")
                 return
-            if tail in ORDER_PRESERVING or fn in ("chain.from_iterable",) or tail == "join":
+            if tail in ORDER_PRESERVING or fn in ("chain.from_iterable", "itertools.chain.from_iterable") or tail == "join":
                 # the call's own value carries the taint; it is observed at *its* consumer
                 if tail == "join" and k in ("U", "V", "T"):
                     self.observe(p, "T", at)
@@ -354,6 +354,12 @@ class _FuncPass:
             if k == "E":
                 return
             self.oa.findings.append(OrderFinding(self.fi, p, f"order-dependent value passed to {fn}(...)", desc))
+            return
+        if isinstance(p, (ast.GeneratorExp, ast.ListComp, ast.SetComp)) and getattr(p, "elt", None) is node:
+            if isinstance(p, ast.SetComp):
+                self.oa.absorbed.append(f"{self.fi.fq}: set comprehension of {short(node, 40)}")
+                return
+            self.observe(p, "T", at)  # a sequence of order-dependent values is observed where the sequence is consumed
             return
         if isinstance(p, ast.Attribute) and p.value is node:
             return  # attribute / method of the value: a method call's own kind is computed in kind() and observed at its consumer
